@@ -166,7 +166,7 @@ XalanOutputStream::transcode(
         // transcoding to a 16-bit encoding.
         // $$$ ToDo: We need to know the size of an encoding, so we can
         // do the right thing with the destination size.
-        size_type   theDestinationSize = theBufferLength * 2;
+        size_type   theDestinationSize = theBufferLength * 4;
         size_type   theTargetSize = theDestinationSize;
 
         do
